@@ -155,6 +155,39 @@ static void op_isapprox(Ctx& c) {
   o.end();
 }
 
+// --- aliases (C04): every documented alias returns what the canonical member returns, bit for bit,
+// for owning operands and for Eigen::Map views
+struct AliasLog { std::vector<std::string> names; std::vector<Eigen::Matrix<S, Eigen::Dynamic, 1>> vals, canon; 
+  template <class A, class B> void add(const char* n, const A& a, const B& b) { names.push_back(n); vals.push_back(a.coeffs()); canon.push_back(b.coeffs()); } };
+template <class XT, class YT, class TT> static void alias_impl(AliasLog& L, const XT& X, const YT& Y, const TT& t) {
+  const G rp = X.rplus(t), lp = X.lplus(t), co = X.compose(Y), bt = X.between(Y), inv = X.inverse(); const T rm = X.rminus(Y), lm = X.lminus(Y), lg = X.log(); const G ex = t.exp();
+  L.add("X.plus(t)", X.plus(t), rp); L.add("X+t", X + t, rp); L.add("X.minus(Y)", X.minus(Y), rm); L.add("X-Y", X - Y, rm); L.add("X*Y", X * Y, co);
+  { G Z = X; Z += t; L.add("X+=t", Z, rp); } { G Z = X; Z *= Y; L.add("X*=Y", Z, co); }
+  L.add("t+X", t + X, lp); L.add("t.plus(X)", t.plus(X), lp); L.add("t.lplus(X)", t.lplus(X), lp); L.add("t.rplus(X)", t.rplus(X), rp);
+  L.add("manif::rplus", manif::rplus(X, t), rp); L.add("manif::lplus", manif::lplus(X, t), lp); L.add("manif::plus", manif::plus(X, t), rp);
+  L.add("manif::rminus", manif::rminus(X, Y), rm); L.add("manif::lminus", manif::lminus(X, Y), lm); L.add("manif::minus", manif::minus(X, Y), rm);
+  L.add("manif::compose", manif::compose(X, Y), co); L.add("manif::between", manif::between(X, Y), bt); L.add("manif::inverse", manif::inverse(X), inv);
+  L.add("manif::log", manif::log(X), lg); L.add("manif::exp", manif::exp(t), ex);
+}
+static void op_alias(Ctx& c) {
+  G X = elemA(c), Y = elemD(c); T t = tanB(c);
+  AliasLog own, view;
+  alias_impl(own, X, Y, t);
+  { Eigen::Matrix<S, G::RepSize, 1> bx = X.coeffs(), by = Y.coeffs(); Eigen::Matrix<S, T::DoF, 1> bt = t.coeffs();
+    Eigen::Map<G> mx(bx.data()); Eigen::Map<const G> my(by.data()); Eigen::Map<const T> mt(bt.data());
+    alias_impl(view, mx, my, mt); }
+  for (int pass = 0; pass < 2; ++pass) {
+    AliasLog& L = pass ? view : own;
+    HEAD("alias") o.str("kind", pass ? "view" : "own"); o.vec("a", X.coeffs()); o.vec("b", Y.coeffs()); o.vec("t", t.coeffs());
+    o.key("names"); std::fputc('[', o.f); for (size_t i = 0; i < L.names.size(); ++i) std::fprintf(o.f, "%s\"%s\"", i ? "," : "", L.names[i].c_str()); std::fputc(']', o.f);
+    o.key("vals"); std::fputc('[', o.f); for (size_t i = 0; i < L.vals.size(); ++i) { if (i) std::fputc(',', o.f); std::fputc('[', o.f); for (int j = 0; j < L.vals[i].size(); ++j) { if (j) std::fputc(',', o.f); o.bits((double)L.vals[i](j)); } std::fputc(']', o.f); } std::fputc(']', o.f);
+    o.key("canon"); std::fputc('[', o.f); for (size_t i = 0; i < L.canon.size(); ++i) { if (i) std::fputc(',', o.f); std::fputc('[', o.f); for (int j = 0; j < L.canon[i].size(); ++j) { if (j) std::fputc(',', o.f); o.bits((double)L.canon[i](j)); } std::fputc(']', o.f); } std::fputc(']', o.f);
+    // the view run must also agree with the owning run
+    if (pass) { o.key("own"); std::fputc('[', o.f); for (size_t i = 0; i < own.vals.size(); ++i) { if (i) std::fputc(',', o.f); std::fputc('[', o.f); for (int j = 0; j < own.vals[i].size(); ++j) { if (j) std::fputc(',', o.f); o.bits((double)own.vals[i](j)); } std::fputc(']', o.f); } std::fputc(']', o.f); }
+    o.end();
+  }
+}
+
 #ifdef REC_IS_BUNDLE
 // --- Bundle = direct product (C11): static index tables, element<i>() aliasing, element-wise equality
 template <class A> static void put_arr(Out& o, const char* k, const A& a) { o.key(k); std::fputc('[', o.f); for (size_t i = 0; i < a.size(); ++i) std::fprintf(o.f, "%s%d", i ? "," : "", (int)a[i]); std::fputc(']', o.f); }
@@ -215,6 +248,7 @@ int main(int argc, char** argv) {
       else if (op == "jacs") op_jacs(c); else if (op == "adj") op_adj(c); else if (op == "adjexp") op_adjexp(c);
       else if (op == "generator") { op_generator(c); break; } else if (op == "algebra") op_algebra(c);
       else if (op == "isapprox") op_isapprox(c);
+      else if (op == "alias") op_alias(c);
       else if (op == "layout") { op_layout(c); break; } else if (op == "belem") op_belem(c);
       else { std::fprintf(stderr, "unknown op %s\n", op.c_str()); return 3; }
     }
